@@ -1,1 +1,2 @@
-pub fn hello() {}
+pub mod seg;
+pub mod segctl;
